@@ -66,6 +66,8 @@ func multiply(preferences multiplyPreferences) func(d *dataTreeNavigator, contex
 			(lhs.Tag == "!!null" && rhs.Kind == SequenceNode) {
 
 			var newBlank = lhs.Copy()
+			// the merge writes into the copy: its aliases must lead to the copied anchors, not back into the operand
+			repointCopiedAliases(lhs, newBlank)
 
 			newBlank.LeadingContent = leadingContent
 			newBlank.HeadComment = headComment
@@ -75,6 +77,31 @@ func multiply(preferences multiplyPreferences) func(d *dataTreeNavigator, contex
 		}
 		return multiplyScalars(lhs, rhs)
 	}
+}
+
+// repointCopiedAliases makes every alias inside copied, whose anchor lies inside original, refer to the copy of that anchor.
+func repointCopiedAliases(original *CandidateNode, copied *CandidateNode) {
+	copyOf := make(map[*CandidateNode]*CandidateNode)
+	var pair func(o *CandidateNode, c *CandidateNode)
+	pair = func(o *CandidateNode, c *CandidateNode) {
+		copyOf[o] = c
+		for i := 0; i < len(o.Content) && i < len(c.Content); i++ {
+			pair(o.Content[i], c.Content[i])
+		}
+	}
+	pair(original, copied)
+	var repoint func(c *CandidateNode)
+	repoint = func(c *CandidateNode) {
+		if c.Kind == AliasNode && c.Alias != nil {
+			if target, inside := copyOf[c.Alias]; inside {
+				c.Alias = target
+			}
+		}
+		for _, child := range c.Content {
+			repoint(child)
+		}
+	}
+	repoint(copied)
 }
 
 func multiplyScalars(lhs *CandidateNode, rhs *CandidateNode) (*CandidateNode, error) {
